@@ -907,6 +907,7 @@ def translate(text, roots=None, rename=None, stubs=(), model='bit', shrink=(), d
     defs = [n for k, n in m.order if k == 'f']
     bodies = {}
     pending = list(roots) if roots else list(defs)
+    if decls_only: pending += [x for x in stubs if x in m.funcs]      # REAL mode may call the real versions of stubbed functions
     seen = set()
     while pending:
         n = pending.pop()
